@@ -328,6 +328,7 @@ def generate(name, expanded_src=None):
                 # visibility normalised to `pub` (same transformation as for functions)
                 txt = txt.replace("pub(crate)", "pub")
                 txt = re.sub(r'^(\s*)const ', r'\1pub const ', txt)
+                txt = re.sub(r'(?m)^(\s*)(struct|type|enum) ', r'\1pub \2 ', txt, count=1)
                 if len(parts) > 3 and 'pubfields' in parts[3:]:
                     # private fields would make the datatype opaque to specifications: named fields and the
                     # single field of a tuple struct get `pub` (visibility only; types and order unchanged)
